@@ -110,6 +110,14 @@ void on_abort(int)
     ::_exit(14);
 }
 
+// per-run watchdog: a run normally takes milliseconds; a library that loops or allocates without end (e.g. over a
+// garbage element count) is reported as a violation of the operation it hangs in instead of stalling the check
+void on_alarm(int)
+{
+    crash_line("hang", nullptr);
+    ::_exit(16);
+}
+
 void on_terminate()
 {
     crash_line("terminate", nullptr);
@@ -140,6 +148,7 @@ void install_handlers()
     sigaction(SIGSEGV, &sa, nullptr);
     sigaction(SIGBUS, &sa, nullptr);
     std::signal(SIGABRT, on_abort);
+    std::signal(SIGALRM, on_alarm);
     std::set_terminate(on_terminate);
 #ifdef SIM_ASAN
     __asan_set_error_report_callback(on_asan_report);
@@ -174,6 +183,14 @@ Outcome execute(const std::vector<sim::Op>& plan, int prop, std::uint64_t env_se
     rc.avoid = avoid;
     rc.known = known;
     sim::g_run = &rc;
+    {
+        static const unsigned secs = [] {
+            const char* e = std::getenv("VERIF_RUN_ALARM");
+            const int v = e ? std::atoi(e) : 0;
+            return static_cast<unsigned>(v > 0 ? v : 20);
+        }();
+        ::alarm(secs);
+    }
     sim::g_ledger.reset();
     // every run starts from the same value-type state: a run is a pure function of its seed
     sim::g_pod_counter = 0;
@@ -202,6 +219,7 @@ Outcome execute(const std::vector<sim::Op>& plan, int prop, std::uint64_t env_se
     }
     if (!rc.stop) h->teardown();
     out.steps = rc.step;
+    ::alarm(0);
     out.hash = rc.log.h;
     if (rc.capped) out.status = 3;
     else if (rc.focus_viol.set)
